@@ -1600,6 +1600,12 @@ class Interp:
                     del s2.cells[key]
         if len(outs) > self.K_ret and body["id"] not in self.no_join_bodies \
                 and not any(body["path"].startswith(p) for p in self.no_join_prefixes):
+            if caller is None and not keep_frame:
+                # the entry's arguments stay roots: what they point to is read
+                # by the rule after the run and must survive the join's gc
+                for s2, rv in outs:
+                    for i, a in enumerate(args):
+                        s2.cells[("entry-arg", i)] = a
             outs = self.join_returns(outs, fid)
         return outs
 
